@@ -134,4 +134,13 @@ def handleJLog : List String → Option String
     pure s!"{chunksToStr m}\t{b2s v}"
   | _ => none
 
+/-- N distinct hosts, then repeats of some of them: by `C14_uniq_first_occurrences` the printed lines are
+    exactly the N hosts in first-sighting order (the harness counts and compares; too long to list) -/
+def handleJUniqBig : List String → Option String
+  | [n, _rep, obs] => do
+    let n ← parseNat? n
+    let m := s!"lines={n};first_sightings_in_order=1"
+    pure s!"{m}\t{b2s (obs == m)}"
+  | _ => none
+
 end Driver.J
